@@ -31,16 +31,22 @@ from fractions import Fraction
 from harness import util, dyn
 
 THEOREMS = ['C05_rest_isothermal_steady', 'C05_primeq_column_refines_spec', 'C05_primeq_column_refines_spec_moist',
-            'C05_primeq_column_refines_momentum', 'C05_flux_form_is_advective_form', 'C05_operators',
+            'C05_primeq_column_refines_momentum', 'C05_primeq_refines_spec', 'C05_primeq_refines_spec_modal_moist',
+            'C05_rest_isothermal_steady_moist', 'C05_flux_form_is_advective_form', 'C05_operators',
             'C05_zonal_polynomial_derivative', 'C05_solid_body_steady', 'C05_sw_polynomial_jet_steady',
             'C05_sw_solid_body_one_layer', 'C05_one_layer_formulas_balanced', 'C05_multi_layer_formulas_balanced',
             'C05_differential_ring_instance', 'C05_solid_body_steady_series', 'C05_sw_solid_body_series',
-            'C05_rest_isothermal_steady_R', 'C05_hyps_satisfiable']
+            'C05_rest_isothermal_steady_R', 'C05_hyps_satisfiable', 'C05_modal_hyps_satisfiable',
+            'C05_rest_moist_hyps_satisfiable']
 LEVEL = 'proof'
 LEVEL_TEXT = ('machine-checked theorems (Coq), every field, every layer count, every level set: the nodal column algebra of '
               'the implementation (explicit + implicit) equals the documented vertical discretisation of the continuous '
-              'sigma-coordinate equations term by term; a resting isothermal atmosphere in hydrostatic balance over any '
-              'orography has exactly zero total tendency using only linearity of the horizontal operators; over an abstract '
+              'sigma-coordinate equations term by term, and at the modal layer the explicit + implicit divergence and vorticity '
+              'tendencies (dry and moist classes, any reference profile) are the clipped modal div/curl/laplacian applied to the '
+              'analysed specification quantities -div((zeta+f) k x v + sigma_dot dv/dsigma + R Tv grad lnps) - lap(KE + Phi) under '
+              'the named exactness obligations of C04; a resting isothermal atmosphere in hydrostatic balance over any '
+              'orography (dry and moist classes with uniform humidity) has exactly zero total tendency using only linearity of '
+              'the horizontal operators; over an abstract '
               'commutative differential ring of smooth fields (ring laws, two commuting derivations with the Leibniz rule, '
               'mu with cos(lat) dmu/dlat = 1 - mu^2) zonal states in gradient-wind / geostrophic balance have zero '
               'tendency of the specification (arbitrary rotation rate, radius, per-layer temperatures, uniform humidity, '
@@ -54,9 +60,9 @@ LEVEL_NOTE = ('three groups of theorems: (A) rest state on the model with abstra
               'Model/PrimEq.v against the vertical discretisation of the spec, (C) identities of the specification over an '
               'abstract commutative differential ring (non-vacuity: C05_differential_ring_instance, power series over Qc; the '
               'instance theorems use functional extensionality). '
-              'That analysis of the pointwise spec equals the modal tendency (exactness of products under the transforms) is '
-              'NOT proved for the vorticity/divergence equations: it is decided by exploration (Oracle A). The moist variant '
-              'of the rest-state theorem is not proved (explored by Oracle B). steady_state_jw and '
+              'The modal-layer theorems assume H_div_grad, H_curl_grad, lap_const (moist: H_leibniz, H_leibniz_curl) and b_0 = 0; that '
+              'to_modal of a nodal product is the exact projection of the product of the continuous fields (alias-freeness) is '
+              'neither assumed nor proved: this last link to the continuous equations is decided by exploration (Oracle A). steady_state_jw and '
               'the barotropic-instability jet are not band-limited and are explored with loose, labelled tolerances; '
               'isothermal_rest_atmosphere over non-flat orography uses a standard-atmosphere formula for the surface pressure '
               'and is only approximately balanced; shallow_water_states.one_layer/multi_layer hard-code radius 1 and 2*Omega = 1')
